@@ -399,6 +399,15 @@ Proof.
 Qed.
 End Eq.
 
+(* the constant masked to the operand's width: every integer K (the literal must fit 32 bits signed: wa <= 31) *)
+Theorem inl_equalconst_masked_sound env r a K : okn env a -> 0 < snd r -> snd a <= 31 ->
+  forall l e, inl_equalconst r a (K mod 2 ^ snd a) = [(l, e)] -> assign_value env l e = b2z (getv env (fst a) =? K mod 2 ^ snd a).
+Proof.
+  intros Ha Hr Hw l e H. apply (inl_equalconst_sound env r a (K mod 2 ^ snd a)); auto.
+  destruct Ha as [Hwa _]. pose proof (Z.mod_pos_bound K (2 ^ snd a) ltac:(apply pow2_pos; lia)).
+  pose proof (pow2_le (snd a) 31 ltac:(lia)). lia.
+Qed.
+
 (* ---------------- BitsLSBF / BitsMSBF:  assign b_k = a[k];  for every k  (one assign `b_0 = a` when a is 1 bit wide) *)
 Section BitsE.
 Variable env : list Z.
